@@ -5,6 +5,9 @@ HARNESSES = {
     'radix_seq': {'san': 'asan'},
     'seqcont_seq': {'san': 'asan'},
     'hashmap_seq': {'san': 'asan'},
+    # basic_string memcpy()s from a null buffer with length 0 (default-constructed strings): no listed property
+    # speaks about zero-length copies, so UBSan's nonnull-attribute check is off for this harness (DESIGN.md 2.3)
+    'string_seq': {'san': 'asan', 'cxxflags': ['-fno-sanitize=nonnull-attribute']},
 }
 
 def rc(cases, size=100, scale=4, workers=None, sizes=None):
@@ -92,5 +95,26 @@ PROPS['C14'] = {
     'assumptions': ['insert only of absent keys', 'iterators are not kept across updates'],
 }
 PROPS['C16']['runs'].append({'harness': 'hashmap_seq', 'quick': {'rc': rc(1500, sizes=[60, 100])}, 'thorough': {'rc': rc(30000, sizes=[60, 100, 200])}})
+
+PROPS['C15'] = {
+    'runs': [{'harness': 'string_seq',
+              'quick': {'enum': True, 'rc': rc(25000, sizes=[40, 80, 160])},
+              'thorough': {'enum': True, 'rc': rc(60000, sizes=[40, 80, 160, 300]), 'fuzz': {'seconds': 120}}}],
+    'rule': 'batteries: a pair (A,B) of byte strings (alphabet {a,b,NUL} up to length 3 - enumerated exhaustively -, digit strings, arbitrary '
+            'bytes, longer low-entropy strings, and B derived from A by prefix/suffix/one-byte change/append) placed in exact-size heap buffers and '
+            'run through every view operation (==, find_first with every start, find_first_of, find_last, every sub_string, starts_with/ends_with, '
+            'to_number, hash) and every string operation (all constructors, copy, assignment, self-assignment, swap, resize to every length, + and += '
+            'with view and char, push_back, self-append, compare/== with string and C string, hash); histories: random sequences of the mutating '
+            'operations over three string slots; oracle: std::string / std::string_view reference, terminator, ASan on sources and own buffer. '
+            'Non-trivial: both operands non-empty and related (search hit at index > 0, comparison differing at a position > 0, prefix/suffix '
+            'relation) or a history in which a concatenation/append joined two non-empty parts; distinct = hash of the decoded case.',
+    'required_tags': ['battery', 'history', 'to_number-digits', 'to_number-nondigit'],
+    'min_cases': {'quick': 20000, 'thorough': 300000},
+    'level_text': 'exhaustive over all pairs of strings up to length 3 over {a,b,NUL} plus generated longer inputs and histories, against std::string/std::string_view; held on everything generated',
+    'level_note': 'trusts std::string(_view), strtoull, ASan redzones behind exact-size sources; compare() sign is only asserted where length-first and lexicographic order agree; resize() tail bytes are unspecified',
+    'technique': 'differential property testing against std::string/string_view (exhaustive small alphabet + rapidcheck tapes + libFuzzer), ASan on exact-size buffers',
+    'assumptions': ['C-string entry points get NUL-terminated input', 'sub_string within range', 'to_number only checked for values that fit the type'],
+}
+PROPS['C16']['runs'].append({'harness': 'string_seq', 'quick': {'rc': rc(800, sizes=[40, 80])}, 'thorough': {'rc': rc(20000, sizes=[40, 80, 160])}})
 
 NOT_APPLICABLE = {}
